@@ -52,7 +52,7 @@ PROFILES = {
     'c14': dict(p_fanin=0.9, n_sources=(2, 2, 3), n_ops=(0, 2, 5, 10), p_rq=0.6, p_split=0.0, p_trace=0.0,
                 fault_kinds=('fail', 'shutdown', 'restore', 'wo', 'addres', 'block', 'adjust', 'offset', 'ct', 'wake')),
     'c15': dict(p_trace=0.3, p_maintainer=0.7, p_split=0.5, p_empty_batch=0.25, p_batch_source=0.35),
-    'c16': dict(p_maintainer=0.8, p_batch_source=0.4,
+    'c16': dict(p_maintainer=0.8, p_batch_source=0.4, p_nested_batch=0.3,
                 fault_kinds=('fail', 'shutdown', 'restore', 'wo', 'addres', 'block', 'adjust', 'rewire', 'offset', 'ct', 'wake',
                              'trywork', 'mkasset', 'mkasset')),
     'c17': dict(kinds=dict(handler=2, proc=2, buffer=3, batcher=6, gates=2, path=0.5), p_batch_source=0.7,
@@ -231,6 +231,7 @@ def _gen_spec(rng, profile_name, P):
                 sizes.append(-1)    # -1 = a single part in a stream of batches
             gen['sizes'] = sizes
             gen['subclass'] = rng.random() < 0.4
+            gen['nested'] = rng.random() < P.get('p_nested_batch', 0.0)
         layer.append(add({'k': 'source', 'n': f'S{s}', 'ct': ct, 'parts': parts, 'gen': gen}))
 
     # ---- layers ------------------------------------------------------------
